@@ -30,6 +30,7 @@ ASSUMPTIONS = [
     "numpy uint8 store of `lfsr & 1` is exact; Python int bit operations = Lean Nat bit operations",
     "the driver evaluates the same Lean definitions the theorems are about (compiled by Lean's code generator)",
 ]
+THOROUGH_ROUNDS = 4      # the thorough tier draws the whole generator this many times
 BUDGET = {"quick": 120, "thorough": 900}
 EXHAUSTIVE = {"quick": False, "thorough": False}
 
